@@ -65,3 +65,45 @@ Definition flat3 (C : Z -> Z -> Z -> Q) : list Q :=
 (* the cell's data block as a function of local indices (needed2 / needed3 order: u outer, w inner) *)
 Definition block2 (vals : list Q) : Z -> Z -> Q := fun u v => nth (Z.to_nat (4 * u + v)) vals 0.
 Definition block3 (vals : list Q) : Z -> Z -> Z -> Q := fun u v w => nth (Z.to_nat (16 * u + 4 * v + w)) vals 0.
+
+(* ---- the de-normalisation loops of Caching2D / Caching3D and the final evaluation in raw coordinates ---- *)
+(* utility.pyx derivatives_array(v, deriv)[a] *)
+Definition dera (v : Q) (der : Z) : Z -> Q := fun a =>
+  match der, a with
+  | 0%Z, 0%Z => 1 | 0%Z, 1%Z => v | 0%Z, 2%Z => v * v | 0%Z, 3%Z => v * v * v
+  | 1%Z, 1%Z => 1 | 1%Z, 2%Z => 2 * v | 1%Z, 3%Z => 3 * v * v
+  | 2%Z, 2%Z => 2 | 2%Z, 3%Z => 6 * v
+  | 3%Z, 3%Z => 6
+  | _, _ => 0
+  end.
+Definition factq (n : Z) : Q := match n with 2%Z => 2 | 3%Z => 6 | _ => 1 end.
+Definition powq (q : Q) (n : Z) : Q := match n with 1%Z => q | 2%Z => q * q | 3%Z => q * q * q | _ => 1 end.
+
+(* _evaluate_polynomial_derivative: x_values[0]*(y_values[0]*c[0] + y_values[1]*c[1] + ..) + x_values[1]*(..) + .. *)
+Definition polyder2 (c : Z -> Z -> Q) (px py : Q) (dx dy : Z) : Q :=
+  dotv (dera px dx) (fun a => dotv (dera py dy) (fun b => c a b)).
+Definition polyder3 (c : Z -> Z -> Z -> Q) (px py pz : Q) (dx dy dz : Z) : Q :=
+  dotv (dera px dx) (fun a => dotv (dera py dy) (fun b => dotv (dera pz dz) (fun e => c a b e))).
+
+(* "for i: for j: coeffs_view[4*i+j] = data_delta * (x_delta_inv**i * y_delta_inv**j / (factorial(j)*factorial(i)) *
+      _evaluate_polynomial_derivative(.., -x_delta_inv*x_min, -y_delta_inv*y_min, i, j));  coeffs_view[0] += data_min" *)
+Definition denorm2 (ddelta dmin xdi ydi xmin ymin : Q) (c : Z -> Z -> Q) : Z -> Z -> Q := fun i j =>
+  ddelta * (powq xdi i * powq ydi j / (factq j * factq i) * polyder2 c (- xdi * xmin) (- ydi * ymin) i j)
+  + (if (i =? 0)%Z && (j =? 0)%Z then dmin else 0).
+(* caching3d.pyx: data_delta * xdi**i * ydi**j * zdi**k / (factorial(i)*factorial(j)*factorial(k)) * derivative *)
+Definition denorm3 (ddelta dmin xdi ydi zdi xmin ymin zmin : Q) (c : Z -> Z -> Z -> Q) : Z -> Z -> Z -> Q := fun i j k =>
+  ddelta * powq xdi i * powq ydi j * powq zdi k / (factq i * factq j * factq k)
+  * polyder3 c (- xdi * xmin) (- ydi * ymin) (- zdi * zmin) i j k
+  + (if (i =? 0)%Z && (j =? 0)%Z && (k =? 0)%Z then dmin else 0).
+
+(* the return expressions of _evaluate: px2 = px*px, px3 = px2*px, ... *)
+Definition line4 (c : Z -> Q) (p : Q) : Q := let p2 := p * p in let p3 := p2 * p in c 0%Z + c 1%Z * p + c 2%Z * p2 + c 3%Z * p3.
+Definition eval2 (c : Z -> Z -> Q) (px py : Q) : Q :=
+  let px2 := px * px in let px3 := px2 * px in
+  line4 (c 0%Z) py + px * line4 (c 1%Z) py + px2 * line4 (c 2%Z) py + px3 * line4 (c 3%Z) py.
+Definition plane16 (c : Z -> Z -> Q) (py pz : Q) : Q :=
+  let py2 := py * py in let py3 := py2 * py in
+  line4 (c 0%Z) pz + py * line4 (c 1%Z) pz + py2 * line4 (c 2%Z) pz + py3 * line4 (c 3%Z) pz.
+Definition eval3 (c : Z -> Z -> Z -> Q) (px py pz : Q) : Q :=
+  let px2 := px * px in let px3 := px2 * px in
+  plane16 (c 0%Z) py pz + px * plane16 (c 1%Z) py pz + px2 * plane16 (c 2%Z) py pz + px3 * plane16 (c 3%Z) py pz.
